@@ -1,40 +1,75 @@
 #!/venv/bin/python
 """C12 - editing a molecule keeps atoms, bonds and interactions consistent.
-Model: lean/VermouthModel/C12.lean (pool state machine); theorems: lean/VermouthProps/C12.lean.
+Model: lean/VermouthModel/C12.lean (pool state machine); theorems: lean/VermouthProps/C12*.lean.
 Correspondence: random op sequences on a pool of real Molecule objects, the observable state of EVERY
-pool member is compared with the model after every op (so aliasing between a copy/subgraph and its
-source shows up), the cached max_node is never compared."""
+pool member (atoms, bonds with their attribute dicts, interactions with version / edge meta, citations,
+nrexcl, force field, log entries) is compared with the model after every op (so aliasing between a
+copy/subgraph and its source shows up), the cached max_node is never compared."""
 from common import *
 
 chk = Check('C12')
 chk.extra['rule'] = ('op sequences over a pool of real Molecule objects with arbitrary integer keys (sparse, negative, '
-                     're-added) and up to 3 real System objects that REFER to pool members (add_molecule, System.copy, '
-                     'MergeAllMolecules, MergeChains; remove_matching_interaction and prune_edges_* among the molecule ops); '
-                     'after every op the whole pool and the molecule lists of all systems are dumped and compared with the model; '
-                     'a sequence is non-trivial if it contains >= 1 removal or merge and >= 1 interaction; distinct = distinct op '
-                     'sequence; add_edges_at_distance is checked by the oracle only (cases edge-dist-*)')
-chk.lean(['VermouthProps.C12'], 'driver_c12')
+                     're-added) and up to 3 real System objects that REFER to pool members (add_molecule incl. force-field '
+                     'propagation / mismatch, System.copy, MergeAllMolecules incl. a system that lists its first molecule again, '
+                     'MergeChains); molecule ops: add_node(s_from) with (key, dict) pairs / bare keys / common kwargs / repeated keys, '
+                     'remove_node(s_from), add_edge(s_from) with attribute dicts, remove_edge(s_from), make_edges_from_interaction(s|_type), '
+                     'clear, add / add_or_replace / remove / remove_matching interaction (templates with Choice / NotDefinedOrNot / '
+                     'None values and version 0), prune_edges_*, log entries, copy, subgraph (repeated / absent keys), merge_molecule '
+                     '(other and self), Block built with add_atom / add_node / add_edge / add_interaction / make_edges + to_molecule; '
+                     'after every op the whole pool and the molecule lists + force fields of all systems are dumped and compared with '
+                     'the model; a sequence is non-trivial if it contains >= 1 removal or merge and >= 1 interaction; distinct = distinct '
+                     'op sequence; add_edges_at_distance is checked by the oracle only (cases edge-dist-*)')
+chk.lean(['VermouthProps.C12', 'VermouthProps.C12_Ext'], 'driver_c12')
 
 import networkx as nx
 import numpy as np
-from vermouth.molecule import Molecule, Block, Interaction, DeleteInteraction
+from vermouth.molecule import Molecule, Block, Interaction, DeleteInteraction, Choice, NotDefinedOrNot
 from vermouth.system import System
+from vermouth.forcefield import ForceField
 from vermouth.processors.merge_all_molecules import MergeAllMolecules
 from vermouth.processors.merge_chains import MergeChains
 from vermouth import edge_tuning
 
 TYPES = ['bonds', 'angles', 'constraints']
 CITES = ['paperA', 'paperB', 'paperC']
+# positions in a molecule dump
+N_, E_, I_, C_, X_, F_, L_ = range(7)
+
+# genuine defects of the real code met by this check (see the final report of the extension round); while an id is
+# not registered in known_findings.json its cases are counted and noted but raise no alarm
+F_CLEAR = 'F-C12-4'      # Molecule.clear() keeps the interactions of the removed atoms
+F_SELF = 'F-C12-5'       # m.merge_molecule(m) raises RuntimeError after adding one atom
+F_LOG = 'F-C12-6'        # log entries keep removed atoms; a later merge raises KeyError half-way / points to another atom
+KNOWN_IDS = {k['id'] for k in chk.known if k.get('status') == 'known'}
+
+
+def ff_obj(name):
+    """a force field is compared by name (ForceField.__eq__): a fresh object per use"""
+    return None if name is None else ForceField(name=name)
+
+
+def ff_name(ff):
+    return None if ff is None else ff.name
+
+
+def dump_logs(m):
+    rows = []
+    for lvl, entries in m.log_entries.items():
+        for entry, fmt_args in entries.items():
+            rows.append([lvl, entry, [sorted([str(k), v] for k, v in fa.items()) for fa in fmt_args]])
+    rows.sort(key=lambda r: (r[0], r[1]))
+    return rows
 
 
 def dump_mol(m):
     nodes = [[k, d.get('atomname'), d.get('resid'), d.get('charge_group'), d.get('chain')] for k, d in m.nodes(data=True)]
-    edges = sorted({(min(u, v), max(u, v)) for u, v in m.edges})
+    edges = sorted({(min(u, v), max(u, v)): [min(u, v), max(u, v), d.get('order'), d.get('kind')]
+                    for u, v, d in m.edges(data=True)}.values())
     inters = []
     for t in sorted(m.interactions):
         for i in m.interactions[t]:
-            inters.append([t, list(i.atoms), i.parameters[0], i.meta.get('version', 0)])
-    return [nodes, [list(e) for e in edges], inters, sorted(m.citations), m.nrexcl]
+            inters.append([t, list(i.atoms), i.parameters[0], i.meta.get('version'), bool(i.meta.get('edge', True))])
+    return [nodes, edges, inters, sorted(m.citations), m.nrexcl, ff_name(m._force_field), dump_logs(m)]
 
 
 def dump_systems(pool, systems):
@@ -43,7 +78,8 @@ def dump_systems(pool, systems):
 
 
 def dump_pool(pool, systems=()):
-    return enc([dump_mol(m) for m in pool]) + ' ' + enc(dump_systems(pool, systems))
+    return (enc([dump_mol(m) for m in pool]) + ' ' + enc(dump_systems(pool, systems)) + ' ' +
+            enc([ff_name(s.force_field) for s in systems]))
 
 
 def adopt(pool, systems):
@@ -69,10 +105,49 @@ def attrs_kw(name, resid, cg, chain=None):
     return kw
 
 
+def eattrs_kw(order, kind):
+    kw = {}
+    if order is not None:
+        kw['order'] = order
+    if kind is not None:
+        kw['kind'] = kind
+    return kw
+
+
+def meta_kw(version, edge=True):
+    meta = {}
+    if version is not None:
+        meta['version'] = version
+    if not edge:
+        meta['edge'] = False
+    return meta
+
+
+def mk_pred(x):
+    """template value: plain | ['e'] explicit None | ['c', v...] Choice | ['n', v] NotDefinedOrNot"""
+    if isinstance(x, (list, tuple)):
+        if x[0] == 'c':
+            return Choice(list(x[1:]))
+        if x[0] == 'n':
+            return NotDefinedOrNot(x[1])
+        if x[0] == 'e':
+            return None
+        raise AssertionError(x)
+    return x
+
+
+def tattrs_kw(name, resid, cg, chain):
+    kw = {}
+    for key, val in (('atomname', name), ('resid', resid), ('charge_group', cg), ('chain', chain)):
+        if val is not None:
+            kw[key] = mk_pred(val)
+    return kw
+
+
 def apply_sys(pool, systems, op):
     kind = op[0]
     if kind == 'newsys':
-        systems.append(System())
+        systems.append(System(force_field=ff_obj(op[1] if len(op) > 1 else None)))
         return 'ok'
     s = op[1]
     if s >= len(systems):
@@ -81,22 +156,28 @@ def apply_sys(pool, systems, op):
     if kind == 'addmol':
         if op[2] >= len(pool):
             return 'badindex'
-        system.add_molecule(pool[op[2]])
+        try:
+            system.add_molecule(pool[op[2]])
+        except KeyError:
+            return 'keyerror'
     elif kind == 'copysys':
         systems.append(system.copy())
     elif kind == 'mergeall':
-        mols = system.molecules
-        if mols and any(m is mols[0] for m in mols[1:]):
-            return 'badindex'          # merging an object into itself is outside the model
         try:
             MergeAllMolecules().run_system(system)
         except ValueError:
             return 'valueerror'
+        except KeyError:
+            return 'keyerror'
+        except RuntimeError:
+            return 'runtimeerror'
     elif kind == 'mergechains':
         try:
             MergeChains(chains=list(op[2]), all_chains=bool(op[3])).run_system(system)
         except ValueError:
             return 'valueerror'
+        except KeyError:
+            return 'keyerror'
     else:
         raise AssertionError(kind)
     adopt(pool, systems)
@@ -116,30 +197,63 @@ def apply(pool, op, systems=None):
         return 'crash:%s' % type(e).__name__
 
 
+def build_block(cites, nrexcl, ff, steps):
+    b = Block(nrexcl=nrexcl, force_field=ff_obj(ff))
+    b.name = 'BLK'
+    b.citations = set(cites)
+    for st in steps:
+        kind = st[0]
+        if kind == 'atom':
+            b.add_atom(attrs_kw(*st[1:]))
+        elif kind == 'node':
+            b.add_node(st[1], **attrs_kw(*st[2:]))
+        elif kind == 'edge':
+            b.add_edge(st[1], st[2], **eattrs_kw(st[3], st[4]))
+        elif kind == 'inter':
+            b.add_interaction(st[1], tuple(st[2]), [st[3]], meta=meta_kw(st[4], st[5]))
+        elif kind == 'raw':
+            b.interactions[st[1]].append(Interaction(atoms=tuple(st[2]), parameters=[st[3]], meta=meta_kw(st[4], st[5])))
+        elif kind == 'mkedges':
+            b.make_edges_from_interaction_type(st[1])
+        elif kind == 'log':
+            b.log_entries[st[1]][st[2]] = []            # as ffinput._parse_log_entry
+        else:
+            raise AssertionError(kind)
+    return b
+
+
 def _apply(pool, op, systems=None):
     kind = op[0]
     if kind in SYS_OPS:
         return apply_sys(pool, systems, op)
     try:
         if kind == 'new':
-            m = Molecule(nrexcl=op[1])
+            m = Molecule(nrexcl=op[1], force_field=ff_obj(op[2] if len(op) > 2 else None))
             m.citations = set()
             pool.append(m)
         elif kind == 'fromblock':
-            _, nodes, edges, inters, cites, nrexcl, ao, ro, co = op
-            b = Block(nrexcl=nrexcl)
+            nodes, edges, inters, cites, nrexcl, ao, ro, co = op[1:9]
+            ff, logs = (op[9], op[10]) if len(op) > 9 else (None, [])
+            b = Block(nrexcl=nrexcl, force_field=ff_obj(ff))
             b.name = 'BLK'
             b.citations = set(cites)
             for n, *at in nodes:
                 b.add_node(n, **attrs_kw(*at))
-            for ty, ats, pr, v in inters:
-                b.interactions[ty].append(Interaction(atoms=tuple(ats), parameters=[pr], meta={'version': v} if v else {}))
-            for u, v in edges:
-                nx.Graph.add_edge(b, u, v)
+            for ty, ats, pr, v, *e in inters:
+                b.interactions[ty].append(Interaction(atoms=tuple(ats), parameters=[pr], meta=meta_kw(v, e[0] if e else True)))
+            for u, v, *ea in edges:
+                nx.Graph.add_edge(b, u, v, **(eattrs_kw(*ea) if ea else {}))
+            for lvl, entry in logs:
+                b.log_entries[lvl][entry] = []
             try:
                 mol = b.to_molecule(atom_offset=ao, offset_resid=ro, offset_charge_group=co, default_attributes={})
             except KeyError:
                 return 'keyerror'
+            pool.append(mol)
+        elif kind == 'buildblock':
+            _, cites, nrexcl, ff, steps, ao, ro, co = op
+            b = build_block(cites, nrexcl, ff, steps)
+            mol = b.to_molecule(atom_offset=ao, offset_resid=ro, offset_charge_group=co, default_attributes={})
             pool.append(mol)
         else:
             i = op[1]
@@ -150,6 +264,8 @@ def _apply(pool, op, systems=None):
                 m.add_node(op[2], **attrs_kw(*op[3:]))
             elif kind == 'addnodes':
                 m.add_nodes_from([(k, attrs_kw(*at)) for k, *at in op[2]])
+            elif kind == 'addnodesc':
+                m.add_nodes_from([e[0] if len(e) == 1 else (e[0], attrs_kw(*e[1:])) for e in op[2]], **attrs_kw(*op[3]))
             elif kind == 'rmnode':
                 try:
                     m.remove_node(op[2])
@@ -161,21 +277,39 @@ def _apply(pool, op, systems=None):
                 m.remove_nodes_from(iter(ks) if op[3] else list(ks))
             elif kind == 'addedge':
                 m.add_edge(op[2], op[3])
+            elif kind == 'addedgea':
+                m.add_edge(op[2], op[3], **eattrs_kw(op[4], op[5]))
+            elif kind == 'addedges':
+                m.add_edges_from([(u, v) if (o is None and k is None and (u + v) % 2) else (u, v, eattrs_kw(o, k))
+                                  for u, v, o, k in op[2]])
+            elif kind == 'rmedge':
+                try:
+                    m.remove_edge(op[2], op[3])
+                except nx.NetworkXError:
+                    return 'nxerror'
+            elif kind == 'rmedges':
+                m.remove_edges_from([tuple(e) for e in op[2]])
+            elif kind == 'mkedges':
+                m.make_edges_from_interaction_type(op[2])
+            elif kind == 'mkedgesall':
+                m.make_edges_from_interactions()
+            elif kind == 'clear':
+                m.clear()
             elif kind == 'addinter':
-                m.add_interaction(op[2], tuple(op[3]), [op[4]], meta={'version': op[5]} if op[5] else {})
+                m.add_interaction(op[2], tuple(op[3]), [op[4]], meta=meta_kw(op[5], op[6] if len(op) > 6 else True))
             elif kind == 'addorrep':
-                m.add_or_replace_interaction(op[2], tuple(op[3]), [op[4]], meta={'version': op[5]} if op[5] else {},
+                m.add_or_replace_interaction(op[2], tuple(op[3]), [op[4]], meta=meta_kw(op[5], op[7] if len(op) > 7 else True),
                                              citations=set(op[6]))
             elif kind == 'rminter':
                 m.remove_interaction(op[2], tuple(op[3]), version=op[4])
             elif kind == 'rmmatch':
                 _, _, ty, ats, pr, v, aa = op
-                meta = {'version': v} if v is not None else {}
+                meta = {'version': mk_pred(v)} if v is not None else {}
                 params = [pr] if pr is not None else []
                 if aa is None:
                     tmpl = Interaction(atoms=tuple(ats), parameters=params, meta=meta)
                 else:
-                    tmpl = DeleteInteraction(atoms=tuple(ats), atom_attrs=[attrs_kw(*a) for a in aa],
+                    tmpl = DeleteInteraction(atoms=tuple(ats), atom_attrs=[tattrs_kw(*a) for a in aa],
                                              parameters=params, meta=meta)
                 m.remove_matching_interaction(ty, tmpl)
             elif kind == 'prune':
@@ -184,15 +318,21 @@ def _apply(pool, op, systems=None):
                 sel_a = (lambda d, n=op[2]: d.get('atomname') == n)
                 sel_b = None if op[3] is None else (lambda d, n=op[3][0]: d.get('atomname') == n)
                 edge_tuning.prune_edges_with_selectors(m, sel_a, sel_b)
+            elif kind == 'addlog':
+                # the way do_links / do_mapping record entries
+                m.log_entries[op[2]][op[3]] += [dict((n, k) for n, k in fa) for fa in op[4]]
             elif kind == 'copy':
                 pool.append(m.copy())
             elif kind == 'subgraph':
                 pool.append(m.subgraph(list(op[2])))
             elif kind == 'merge':
                 j = op[2]
-                if j >= len(pool) or i == j:
+                if j >= len(pool):
                     return 'badindex'
-                m.merge_molecule(pool[j])
+                try:
+                    m.merge_molecule(pool[j])
+                except RuntimeError:
+                    return 'runtimeerror'
             else:
                 raise AssertionError(kind)
     except KeyError:
@@ -207,11 +347,14 @@ def op_line(op):
     if kind == 'rmnodes':
         return line('rmnodes', op[1], op[2])
     if kind == 'fromblock':
-        _, nodes, edges, inters, cites, nrexcl, ao, ro, co = op
+        nodes, edges, inters, cites, nrexcl, ao, ro, co = op[1:9]
+        rest = list(op[9:])
         return line('fromblock', [list(n) for n in nodes], [list(e) for e in edges],
-                    [[ty, list(ats), pr, v] for ty, ats, pr, v in inters], cites, nrexcl, ao, ro, co)
+                    [list(it) for it in inters], cites, nrexcl, ao, ro, co, *rest)
     return line(*op)
 
+
+# ---- generators -------------------------------------------------------------------------------------------------
 
 def gen_key(rng, m):
     ks = list(m.nodes) if m is not None else []
@@ -229,34 +372,89 @@ def gen_attrs(rng):
             rng.choice([None, None, 'A', 'A', 'B', ''])]
 
 
+def gen_eattrs(rng):
+    return [rng.choice([None, None, 1, 2, 0]), rng.choice([None, None, 'single', 'arom', ''])]
+
+
+def gen_ff(rng):
+    return MAIN_FF if rng.random() < 0.85 else rng.choice([None, 'ffA', 'ffB'])
+
+
+MAIN_FF = None
+ATTR_KEYS = ['atomname', 'resid', 'charge_group', 'chain']
+
+
+def gen_pred(rng, pos, have):
+    """a template value for attribute number `pos`; `have` = the node's value (None = absent)"""
+    pool_vals = gen_attrs(rng)
+    other = pool_vals[pos]
+    r = rng.random()
+    if r < 0.55:
+        return have if have is not None else other          # plain value (None = key left out)
+    if r < 0.62:
+        return ['e']                                        # explicit None: matches only an absent attribute
+    if r < 0.82:
+        vals = [v for v in (have, other, gen_attrs(rng)[pos]) if rng.random() < 0.6]
+        if rng.random() < 0.15:
+            vals.append(None)
+        return ['c'] + vals
+    return ['n', rng.choice([have, other, None])]
+
+
 def gen_template_attrs(rng, m, atoms):
-    """per-atom attribute templates of a DeleteInteraction: mostly what the atoms have, sometimes something else"""
+    """per-atom attribute templates of a DeleteInteraction: mostly what the atoms have, sometimes something else,
+    a third of the given values as LinkPredicate (Choice / NotDefinedOrNot) or explicit None"""
     out = []
     for a in atoms:
         d = m.nodes[a] if (m is not None and a in m.nodes) else {}
         t = [None, None, None, None]
-        for pos, key in enumerate(['atomname', 'resid', 'charge_group', 'chain']):
+        for pos, key in enumerate(ATTR_KEYS):
             r = rng.random()
-            if r < 0.30 and d.get(key) is not None:
+            if r < 0.22 and d.get(key) is not None:
                 t[pos] = d[key]
-            elif r < 0.33:
+            elif r < 0.25:
                 t[pos] = gen_attrs(rng)[pos]
+            elif r < 0.40:
+                t[pos] = gen_pred(rng, pos, d.get(key))
         out.append(t)
     if atoms and rng.random() < 0.15:
         out.pop()            # zip() stops at the shorter list
     return out
 
 
+def gen_version_template(rng, v):
+    """version key of a meta template: absent, the interaction's own (0 included), another, or a predicate"""
+    r = rng.random()
+    if r < 0.40:
+        return None
+    if r < 0.60:
+        return v if v is not None else 0        # version 0 asked of an interaction WITHOUT version key: no match
+    if r < 0.70:
+        return rng.choice([0, 1, 2])
+    if r < 0.78:
+        return ['e']
+    if r < 0.90:
+        return ['c'] + rng.sample([0, 1, 2, None], rng.randint(1, 3))
+    return ['n', rng.choice([v, 0, 1, None])]
+
+
+def order_dependent_selfmerge(mols):
+    """a molecule (the merge of `mols`) with exactly one atom and interactions of two or more types merged into itself:
+    what happens depends on the order of the type dict, which the model does not carry"""
+    return sum(len(m) for m in mols) == 1 and len({t for m in mols for t, its in m.interactions.items() if its}) >= 2
+
+
 def gen_sys_op(rng, pool, systems):
     ns, n = len(systems), len(pool)
     if ns == 0 or (ns < 3 and rng.random() < 0.07):
-        return ('newsys',)
+        return ('newsys', gen_ff(rng) if rng.random() < 0.5 else None)
     s = rng.randrange(ns) if rng.random() < 0.95 else ns + 1
     r = rng.random()
     if s < ns and len(systems[s].molecules) < rng.choice([1, 2, 3, 4]) and rng.random() < 0.8:
         r = 0.0              # fill the system first
     if r < 0.30:
-        # prefer molecules that are not yet in the system (an object merged into itself is outside the model)
+        # mostly molecules that are not yet in the system; one in ten is listed a second time (MergeAllMolecules then
+        # merges the first molecule into itself, MergeChains merges a molecule twice)
         cand = [k for k in range(n) if s >= ns or all(pool[k] is not m for m in systems[s].molecules)]
         if cand and rng.random() < 0.9:
             return ('addmol', s, rng.choice(cand))
@@ -264,7 +462,10 @@ def gen_sys_op(rng, pool, systems):
     if r < 0.42 and n < 9:
         return ('copysys', s)
     if r < 0.68 or n >= 12:          # every successful MergeChains adds a molecule: keep the pool small
-        return ('mergeall', s)
+        mols = systems[s].molecules if s < ns else []
+        rep = [k for k, x in enumerate(mols[1:], 1) if x is mols[0]]
+        if not (rep and order_dependent_selfmerge(mols[:rep[0]])):
+            return ('mergeall', s)
     rr = rng.random()
     if rr < 0.3:
         return ('mergechains', s, [], True)
@@ -273,47 +474,135 @@ def gen_sys_op(rng, pool, systems):
     return ('mergechains', s, rng.choice([[], ['A']]), rng.choice([False, True]))
 
 
+BNAMES = ['N', 'CA', 'C', 'O', 'CB', 'X']
+
+
+def gen_block_steps(rng):
+    steps, names = [], []
+    pick = lambda: rng.choice(names + ['ZZ']) if (rng.random() < 0.06 or not names) else rng.choice(names)
+    for _ in range(rng.randint(0, 9)):
+        r = rng.random()
+        if r < 0.35 or not names:
+            a = gen_attrs(rng)
+            a[0] = rng.choice(BNAMES) if rng.random() < 0.95 else None      # add_atom without atomname: ValueError
+            steps.append(['atom'] + a)
+            if a[0] is not None and a[0] not in names:
+                names.append(a[0])
+        elif r < 0.45:
+            nm = rng.choice(BNAMES)
+            steps.append(['node', nm] + gen_attrs(rng))
+            if nm not in names:
+                names.append(nm)
+        elif r < 0.62:
+            u, v = pick(), pick()
+            steps.append(['edge', u, v] + gen_eattrs(rng))
+            for x in (u, v):
+                if x not in names:
+                    names.append(x)
+        elif r < 0.85:
+            steps.append([rng.choice(['inter', 'inter', 'raw']), rng.choice(TYPES), [pick() for _ in range(rng.randint(1, 4))],
+                          rng.choice(['p', 'q']), rng.choice([None, None, 0, 1]), rng.random() < 0.85])
+        elif r < 0.95:
+            steps.append(['mkedges', rng.choice(TYPES)])
+            # atoms of unvalidated ('raw') interactions become nodes
+            for st in steps:
+                if st[0] in ('inter', 'raw') and st[1] == steps[-1][1] and st[5] and len(st[2]) > 1:
+                    for x in st[2]:
+                        if x not in names:
+                            names.append(x)
+        else:
+            steps.append(['log', rng.choice([20, 30]), rng.choice(['block note', 'block warning'])])
+    return steps
+
+
 def gen_op(rng, pool, systems=None):
     n = len(pool)
     if systems is not None and n > 0 and rng.random() < SYS_RATE:
         return gen_sys_op(rng, pool, systems)
     if n == 0 or (n < 5 and rng.random() < 0.08):
-        if rng.random() < 0.4:
-            names = rng.sample(['N', 'CA', 'C', 'O', 'CB', 'X'], rng.randint(0, 4))
+        r = rng.random()
+        if r < 0.25:
+            names = rng.sample(BNAMES, rng.randint(0, 4))
             nodes = [[nm] + gen_attrs(rng) for nm in names]
             pick = lambda: rng.choice(names + ['ZZ']) if rng.random() < 0.07 else rng.choice(names)
-            edges = [[rng.choice(names), rng.choice(names)] for _ in range(rng.randint(0, 3))] if names else []
-            inters = [[rng.choice(TYPES), [pick() for _ in range(rng.randint(1, 3))], rng.choice(['p', 'q']), rng.choice([0, 0, 1])]
+            edges = [[rng.choice(names), rng.choice(names)] + (gen_eattrs(rng) if rng.random() < 0.5 else [])
+                     for _ in range(rng.randint(0, 3))] if names else []
+            inters = [[rng.choice(TYPES), [pick() for _ in range(rng.randint(1, 3))], rng.choice(['p', 'q']), rng.choice([None, None, 1, 0]),
+                       rng.random() < 0.9]
                       for _ in range(rng.randint(0, 3))] if names else []
+            logs = [[rng.choice([20, 30]), rng.choice(['block note', 'block warning'])] for _ in range(rng.choice([0, 0, 1, 2]))]
+            logs = [l for k, l in enumerate(logs) if l not in logs[:k]]
             return ('fromblock', nodes, edges, inters, rng.sample(CITES, rng.randint(0, 2)), rng.choice([1, 1, 1, 3]),
+                    rng.choice([0, 1, 5]), rng.choice([0, 2]), rng.choice([0, 3]), gen_ff(rng), logs)
+        if r < 0.45:
+            return ('buildblock', rng.sample(CITES, rng.randint(0, 2)), rng.choice([1, 1, 1, 3]), gen_ff(rng), gen_block_steps(rng),
                     rng.choice([0, 1, 5]), rng.choice([0, 2]), rng.choice([0, 3]))
-        return ('new', rng.choice([None, 1, 1, 1, 3]))
+        return ('new', rng.choice([None, 1, 1, 1, 3]), gen_ff(rng))
     i = rng.randrange(n) if rng.random() < 0.95 else n + 1
     m = pool[i] if i < n else None
+    its = [(t, x) for t in m.interactions for x in m.interactions[t]] if m is not None else []
     r = rng.random()
-    if r < 0.14:
+    if r < 0.10:
         return ('addnode', i, gen_key(rng, m)) + tuple(gen_attrs(rng))
-    if r < 0.22:
+    if r < 0.16:
         return ('addnodes', i, [[gen_key(rng, m)] + gen_attrs(rng) for _ in range(rng.randint(0, 4))])
-    if r < 0.30:
+    if r < 0.20:
+        # bare keys and (key, dict) pairs mixed, common keyword attributes, a key repeated on purpose
+        ents = [([gen_key(rng, m)] if rng.random() < 0.4 else [gen_key(rng, m)] + gen_attrs(rng)) for _ in range(rng.randint(0, 4))]
+        if ents and rng.random() < 0.5:
+            ents.append([ents[0][0]] + gen_attrs(rng))
+        common = gen_attrs(rng) if rng.random() < 0.6 else [None, None, None, None]
+        return ('addnodesc', i, ents, common)
+    if r < 0.27:
         return ('rmnode', i, gen_key(rng, m))
-    if r < 0.37:
+    if r < 0.33:
         return ('rmnodes', i, [gen_key(rng, m) for _ in range(rng.randint(0, 3))], rng.random() < 0.5)
-    if r < 0.45:
+    if r < 0.37:
         return ('addedge', i, gen_key(rng, m), gen_key(rng, m))
-    if r < 0.60:
-        if m is not None and rng.random() < 0.2:
+    if r < 0.41:
+        es = list(m.edges) if m is not None else []
+        if es and rng.random() < 0.4:          # an existing bond again: its attribute dict is updated
+            u, v = rng.choice(es)
+            if rng.random() < 0.5:
+                u, v = v, u
+            return ('addedgea', i, u, v) + tuple(gen_eattrs(rng))
+        return ('addedgea', i, gen_key(rng, m), gen_key(rng, m)) + tuple(gen_eattrs(rng))
+    if r < 0.44:
+        return ('addedges', i, [[gen_key(rng, m), gen_key(rng, m)] + gen_eattrs(rng) for _ in range(rng.randint(0, 3))])
+    if r < 0.49:
+        es = list(m.edges) if m is not None else []
+        if rng.random() < 0.5:
+            if es and rng.random() < 0.8:
+                u, v = rng.choice(es)
+                if rng.random() < 0.5:
+                    u, v = v, u
+                return ('rmedge', i, u, v)
+            return ('rmedge', i, gen_key(rng, m), gen_key(rng, m))
+        l = [list(rng.choice(es))[::rng.choice([1, -1])] if (es and rng.random() < 0.7) else [gen_key(rng, m), gen_key(rng, m)]
+             for _ in range(rng.randint(0, 3))]
+        return ('rmedges', i, l)
+    if r < 0.53:
+        if rng.random() < 0.3:
+            return ('mkedgesall', i)
+        have = [t for t, x in its]
+        return ('mkedges', i, rng.choice(have) if (have and rng.random() < 0.7) else rng.choice(TYPES + ['dihedrals']))
+    if r < 0.66:
+        edge = rng.random() < 0.85
+        if m is not None and its and rng.random() < 0.2:
             # the same atoms again with other parameters / version: several candidates for remove_matching_interaction
-            ex = [(t, x) for t in m.interactions for x in m.interactions[t]]
-            if ex:
-                t, x = rng.choice(ex)
-                return ('addinter', i, t, list(x.atoms), rng.choice(['p', 'q', 'r']), rng.choice([0, 0, 1, 2]))
-        return ('addinter', i, rng.choice(TYPES), [gen_key(rng, m) for _ in range(rng.randint(1, 3))], rng.choice(['p', 'q', 'r']), rng.choice([0, 0, 1]))
-    if r < 0.68:
-        return ('addorrep', i, rng.choice(TYPES), [gen_key(rng, m) for _ in range(rng.randint(1, 3))], rng.choice(['p', 'q', 'r']), rng.choice([0, 0, 1]),
-                rng.sample(CITES, rng.randint(0, 2)))
-    if r < 0.75:
-        its = [(t, x) for t in m.interactions for x in m.interactions[t]] if m is not None else []
+            t, x = rng.choice(its)
+            return ('addinter', i, t, list(x.atoms), rng.choice(['p', 'q', 'r']), rng.choice([None, None, 0, 1, 2]), edge)
+        return ('addinter', i, rng.choice(TYPES), [gen_key(rng, m) for _ in range(rng.randint(1, 4))], rng.choice(['p', 'q', 'r']),
+                rng.choice([None, None, 0, 1]), edge)
+    if r < 0.72:
+        if its and rng.random() < 0.35:          # replace an existing one (version absent and 0 are the same key)
+            t, x = rng.choice(its)
+            v = x.meta.get('version')
+            v = rng.choice([v, v, 0 if v is None else v, None if v == 0 else v])
+            return ('addorrep', i, t, list(x.atoms), rng.choice(['p', 'q', 'r']), v, rng.sample(CITES, rng.randint(0, 2)), rng.random() < 0.85)
+        return ('addorrep', i, rng.choice(TYPES), [gen_key(rng, m) for _ in range(rng.randint(1, 3))], rng.choice(['p', 'q', 'r']),
+                rng.choice([None, None, 0, 1]), rng.sample(CITES, rng.randint(0, 2)), rng.random() < 0.85)
+    if r < 0.79:
         if rng.random() < (0.55 if its else 0.1):
             # remove_matching_interaction: template from an existing interaction, loosened or spoiled
             if its and rng.random() < 0.9:
@@ -322,59 +611,63 @@ def gen_op(rng, pool, systems=None):
             else:
                 t, atoms, pr, v = rng.choice(TYPES), [gen_key(rng, m) for _ in range(rng.randint(1, 2))], 'p', None
             pr = rng.choice([None, None, pr, pr, pr, 'zz'])
-            # the harness stores version 0 as "no version key", so a template never asks for version 0
-            v = rng.choice([None, None, None, v, v, 2]) or None
             aa = gen_template_attrs(rng, m, atoms) if rng.random() < 0.4 else None
-            return ('rmmatch', i, t, atoms, pr, v, aa)
+            return ('rmmatch', i, t, atoms, pr, gen_version_template(rng, v), aa)
         if its and rng.random() < 0.7:
             t, x = rng.choice(its)
             return ('rminter', i, t, list(x.atoms), x.meta.get('version', 0))
         return ('rminter', i, rng.choice(TYPES), [gen_key(rng, m)], 0)
-    if r < 0.78:
+    if r < 0.81:
         if rng.random() < 0.5:
             return ('prune', i, [gen_key(rng, m) for _ in range(rng.randint(0, 3))], [gen_key(rng, m) for _ in range(rng.randint(0, 3))])
         return ('prunesel', i, rng.choice(['A', 'B', 'CA', 'N', '']), rng.choice([None, None, ['A'], ['N'], ['']]))
-    if r < 0.82 and n < 5:
+    if r < 0.84:
+        fas = [[[nm, gen_key(rng, m)] for nm in rng.sample(['A', 'B', 'C'], rng.randint(0, 2))] for _ in range(rng.randint(0, 2))]
+        return ('addlog', i, rng.choice([20, 30]), rng.choice(['msg {A}', 'note', 'warn {B}', 'block note']), fas)
+    if r < 0.85:
+        return ('clear', i)
+    if r < 0.88 and n < 5:
         return ('copy', i)
-    if r < 0.87 and n < 5:
+    if r < 0.92 and n < 5:
         ks = list(m.nodes) if m is not None else []
         sub = rng.sample(ks, rng.randint(0, len(ks))) if ks else []
         if rng.random() < 0.1:
             sub.append(gen_key(rng, m))
-        if sub and rng.random() < 0.1:
-            sub.append(sub[0])
+        if sub and rng.random() < 0.3:
+            # repeated keys: once, twice, the whole list again
+            sub = sub + rng.choice([[sub[0]], [sub[-1], sub[0]], list(sub)])
         return ('subgraph', i, sub)
     j = rng.randrange(n)
+    if j == i and n > 1 and rng.random() < 0.9:
+        j = (i + 1 + rng.randrange(n - 1)) % n
+    if rng.random() < 0.04:
+        j = i                      # merge a molecule into itself
+    if j == i and m is not None and order_dependent_selfmerge([m]):
+        return ('mkedgesall', i)   # (see Mol.selfMerge: the outcome would depend on the order of the type dict)
     if m is not None and j < n and len(m) + len(pool[j]) > 60:
         # keep molecules small (repeated merges double the size)
         return ('rmnodes', i, list(m.nodes)[::2], rng.random() < 0.5)
     return ('merge', i, j)
 
 
+def dangling(m):
+    keys = set(m.nodes)
+    return any(a not in keys for its in m.interactions.values() for it in its for a in it.atoms)
+
+
 def gen_sequence(rng, length):
     """Generate ops against a live pool (generation needs the current keys)."""
-    pool, systems, ops, outs, dumps = [], [], [], [], []
+    pool, systems, ops = [], [], []
     for _ in range(length):
         op = gen_op(rng, pool, systems)
         ops.append(op)
-        outs.append(apply(pool, op, systems))
-        dumps.append(dump_pool(pool, systems))
-    return ops, outs, dumps, pool
+        apply(pool, op, systems)
+        if op[0] == 'clear' and op[1] < len(pool) and dangling(pool[op[1]]):
+            break                  # F-C12-4: the history ends where the real code has left the reachable states
+    return ops
 
 
-def replay_sequence(ops):
-    pool, systems, outs, dumps = [], [], [], []
-    for op in ops:
-        outs.append(apply(pool, op, systems))
-        dumps.append(dump_pool(pool, systems))
-    return outs, dumps, pool
-
-
-def oracle(ops, outs, pool_trace):
-    """The property on the real objects, independent of the model."""
-    errs = []
-    return errs
-
+# ---- oracle -----------------------------------------------------------------------------------------------------
 
 def check_consistency(pool):
     errs = []
@@ -391,222 +684,519 @@ def check_consistency(pool):
     return errs
 
 
-def merged_expectation(acc, operands):
-    """Independent statement of merge_all_keeps on dumps: what `acc` must look like after the operands were
-    merged into it one after the other.  Returns (nodes, edge set, interactions as sorted reprs)."""
-    nodes = [list(r) for r in acc[0]]
-    edges = {tuple(e) for e in acc[1]}
-    inters = [list(x) for x in acc[2]]
+def d1(x, default=1):
+    return x if x is not None else default
+
+
+def merge_expect(a, b):
+    """Independent statement of the merge clauses on dumps: `a` after `b` was merged into it.
+    Returns None if a log entry of b mentions an atom b does not have (the code raises KeyError)."""
+    nodes = [list(r) for r in a[N_]]
+    if nodes:
+        last = max(nodes, key=lambda r: r[0])
+        off, roff, coff = last[0], d1(last[2]), d1(last[3])
+    else:
+        off = roff = coff = 0
+    corr = {}
+    for i, r in enumerate(b[N_]):
+        corr[r[0]] = off + 1 + i
+        nodes.append([off + 1 + i, r[1], d1(r[2]) + roff, d1(r[3]) + coff, r[4]])
+    edges = {(e[0], e[1]): list(e) for e in a[E_]}
+    for u, v, o, k in b[E_]:
+        if u != v:
+            cu, cv = corr.get(u, u), corr.get(v, v)         # (an inconsistent newcomer is reported by the presence clause)
+            edges[(min(cu, cv), max(cu, cv))] = [min(cu, cv), max(cu, cv), o, k]
+    inters = [list(x) for x in a[I_]] + [[t, [corr.get(x, x) for x in ats], p, v, e] for t, ats, p, v, e in b[I_]]
+    logs = {(l, e): [list(fa) for fa in fas] for l, e, fas in a[L_]}
+    ok = True
+    for l, e, fas in b[L_]:
+        if any(k not in corr for fa in fas for _, k in fa):
+            ok = False
+            break
+        logs.setdefault((l, e), [])
+        logs[(l, e)] += [[[n, corr[k]] for n, k in fa] for fa in fas] + [sorted([str(k), v] for k, v in corr.items())]
+    return {'nodes': nodes, 'edges': sorted(edges.values()), 'inters': sorted(map(repr, inters)), 'inter_rows': inters,
+            'cites': sorted(set(a[C_]) | set(b[C_])), 'logs': sorted([l, e, fas] for (l, e), fas in logs.items()),
+            'logs_ok': ok, 'corr': corr}
+
+
+def merge_outcome_expect(a, b):
+    if a[F_] != b[F_]:
+        return 'valueerror'
+    eff = b[X_] if (a[X_] is None and not a[N_]) else a[X_]
+    if eff != b[X_]:
+        return 'valueerror'
+    keys = {r[0] for r in b[N_]}
+    if any(k not in keys for _, _, fas in b[L_] for fa in fas for _, k in fa):
+        return 'keyerror'
+    return 'ok'
+
+
+def fold_expect(acc, operands, self_index=None, idxs=()):
+    """merge_all_keeps restated on dumps; returns (dump-like dict or None, outcome)."""
+    cur = [acc[N_], acc[E_], acc[I_], acc[C_], acc[X_], acc[F_], acc[L_]]
     for b in operands:
-        if nodes:
-            last = max(nodes, key=lambda r: r[0])
-            off, roff, coff = last[0], (last[2] if last[2] is not None else 1), (last[3] if last[3] is not None else 1)
-        else:
-            off = roff = coff = 0
-        corr = {}
-        for i, r in enumerate(b[0]):
-            corr[r[0]] = off + 1 + i
-            nodes.append([off + 1 + i, r[1], (r[2] if r[2] is not None else 1) + roff, (r[3] if r[3] is not None else 1) + coff, r[4]])
-        edges |= {(min(corr[u], corr[v]), max(corr[u], corr[v])) for u, v in b[1] if u != v}
-        inters += [[t, [corr[x] for x in ats], p, v] for t, ats, p, v in b[2]]
-    return nodes, edges, sorted(map(repr, inters))
+        out = merge_outcome_expect(cur, b)
+        if out != 'ok':
+            return None, out
+        ex = merge_expect(cur, b)
+        nrexcl = b[X_] if (cur[X_] is None and not cur[N_]) else cur[X_]
+        cur = [ex['nodes'], ex['edges'], ex['inter_rows'], ex['cites'], nrexcl, cur[F_], ex['logs']]
+    return cur, 'ok'
 
 
-def system_oracle(op, out, before, after, sys_before, sys_after):
+def same_inters(got, want_rows):
+    return sorted(map(repr, got)) == sorted(map(repr, want_rows))
+
+
+def pred_holds(p, x):
+    """independent reading of attributes_match for one key: p = template value (None = key absent), x = value or None"""
+    if p is None:
+        return True
+    if isinstance(p, list):
+        if p[0] == 'e':
+            return x is None
+        if p[0] == 'c':
+            return x in p[1:]
+        if p[0] == 'n':
+            return x is None or x != p[1]
+    return x == p
+
+
+def system_oracle(op, out, before, after, sys_before, sys_after, ff_before, ff_after):
     errs = []
     kind = op[0]
     if kind == 'newsys':
-        if sys_after != sys_before + [[]] or after != before:
-            errs.append('newsys did more than append an empty system')
+        if sys_after != sys_before + [[]] or after != before or ff_after != ff_before + [op[1] if len(op) > 1 else None]:
+            errs.append(('newsys did more than append an empty system', None))
         return errs
     s = op[1]
     if s >= len(sys_before):
         return errs
     idxs = sys_before[s]
+    sff = ff_before[s]
     if kind == 'mergeall':
-        chk.count('mergeall_%s_operands_%s' % (out, min(len(idxs), 4)))
+        chk.count('mergeall_%s_operands_%s%s' % (out, min(len(idxs), 4), '_selfmerge' if idxs and idxs[0] in idxs[1:] else ''))
     if kind == 'mergechains' and out != 'badindex':
         allc, chains = bool(op[3]), list(op[2])
         if not ((allc and chains) or (not allc and not chains)):
-            nsel = sum(1 for k in idxs if allc or all(r[4] in chains for r in before[k][0]))
+            nsel = sum(1 for k in idxs if allc or all(r[4] in chains for r in before[k][N_]))
             chk.count('mergechains_%s_selected_%s_of_%s' % (out, 'none' if nsel == 0 else 'all' if nsel == len(idxs) else 'one' if nsel == 1 else 'some',
                                                             min(len(idxs), 4)))
         else:
             chk.count('mergechains_%s_badargs' % out)
-    if kind == 'addmol' and out == 'ok':
-        if sys_after[s] != idxs + [op[2]] or after != before:
-            errs.append('add_molecule did more than append the reference')
+    if kind == 'addmol' and op[2] < len(before):
+        mff = before[op[2]][F_]
+        want_out = 'keyerror' if (sff is not None and mff is not None and mff != sff) else 'ok'
+        chk.count('addmol_%s_%s' % (out, 'ff_taken_from_system' if (mff is None and sff is not None) else
+                                    'ff_given_to_system' if (sff is None and mff is not None) else 'ff_same_or_none' if want_out == 'ok' else 'ff_mismatch'))
+        if out != want_out:
+            errs.append(('add_molecule: outcome %s, expected %s (system %r, molecule %r)' % (out, want_out, sff, mff), None))
+        if out == 'ok':
+            if sys_after[s] != idxs + [op[2]]:
+                errs.append(('add_molecule did not append exactly the reference', None))
+            new_ff = sff if sff is not None else mff
+            if ff_after[s] != new_ff:
+                errs.append(('add_molecule: system force field %r, expected %r' % (ff_after[s], new_ff), None))
+            touched = set([op[2]]) | (set(idxs) if sff is None else set())
+            for k, (b, a) in enumerate(zip(before, after)):
+                want = list(b)
+                if k in touched:
+                    want[F_] = new_ff
+                if a != want:
+                    errs.append(('add_molecule changed molecule %d beyond its force field' % k, None))
     elif kind == 'copysys' and out == 'ok':
         new = sys_after[-1]
         if len(sys_after) != len(sys_before) + 1 or new != list(range(len(before), len(before) + len(idxs))):
-            errs.append('System.copy: the molecules of the copy are not new objects (indices %r)' % (new,))
-        elif [after[k] for k in new] != [before[k] for k in idxs]:
-            errs.append('System.copy: a copied molecule differs from its source')
-    elif kind == 'mergeall' and out == 'ok' and idxs:
-        if sys_after[s] != [idxs[0]]:
-            errs.append('MergeAllMolecules: the system does not hold exactly the first molecule afterwards')
-        nodes, edges, inters = merged_expectation(before[idxs[0]], [before[k] for k in idxs[1:]])
-        got = after[idxs[0]]
-        if got[0] != nodes:
-            errs.append('MergeAllMolecules: atoms are not those of all operands in order, renumbered and shifted uniformly')
-        if len({r[0] for r in got[0]}) != len(got[0]) or len(got[0]) != sum(len(before[k][0]) for k in idxs):
-            errs.append('MergeAllMolecules: an atom is missing, duplicated or overwritten')
-        if {tuple(e) for e in got[1]} != edges:
-            errs.append('MergeAllMolecules: bonds are not those of all operands')
-        if sorted(map(repr, got[2])) != inters:
-            errs.append('MergeAllMolecules: interactions are not those of all operands')
-    elif kind == 'mergeall' and out == 'valueerror':
-        eff = None
-        # a failure needs two operands whose nrexcl differ
-        if len({before[k][4] for k in idxs}) < 2:
-            errs.append('MergeAllMolecules: ValueError although all nrexcl agree')
+            errs.append(('System.copy: the molecules of the copy are not new objects (indices %r)' % (new,), None))
+        else:
+            for k, src in zip(new, idxs):
+                want = list(before[src])
+                want[F_] = sff
+                if after[k] != want:
+                    errs.append(('System.copy: a copied molecule differs from its source', None))
+        if ff_after[-1] != sff:
+            errs.append(('System.copy: force field of the copy', None))
+    elif kind == 'mergeall' and idxs:
+        i0 = idxs[0]
+        want, want_out, selfmerged = before[i0], 'ok', False
+        for k in idxs[1:]:
+            if k == i0:
+                # the first molecule is listed again: at that point it is merged into itself (F-C12-5)
+                n = len(want[N_])
+                if n >= 2 or (n == 1 and want[I_]):
+                    want_out, selfmerged = ('runtimeerror' if n >= 2 else 'keyerror'), True
+                    break
+            nxt, o = fold_expect(want, [want if k == i0 else before[k]])
+            if o != 'ok':
+                want, want_out = None, o
+                break
+            want = nxt
+        if out != want_out:
+            errs.append(('MergeAllMolecules: outcome %s, expected %s' % (out, want_out),
+                         F_SELF if selfmerged else F_LOG if 'keyerror' in (out, want_out) else None))
+        if selfmerged:
+            errs.append(('MergeAllMolecules on a system that lists its first molecule twice: %s, the first molecule has %d atoms '
+                         'instead of %d' % (out, len(after[i0][N_]), 2 * len(want[N_])), F_SELF))
+        elif out == 'ok' and want is not None:
+            if sys_after[s] != [i0]:
+                errs.append(('MergeAllMolecules: the system does not hold exactly the first molecule afterwards', None))
+            got = after[i0]
+            if got[N_] != want[N_]:
+                errs.append(('MergeAllMolecules: atoms are not those of all operands in order, renumbered and shifted uniformly', None))
+            if len({r[0] for r in got[N_]}) != len(got[N_]):
+                errs.append(('MergeAllMolecules: an atom is missing, duplicated or overwritten', None))
+            if got[E_] != want[E_]:
+                errs.append(('MergeAllMolecules: bonds (with attributes) are not those of all operands', None))
+            if not same_inters(got[I_], want[I_]):
+                errs.append(('MergeAllMolecules: interactions are not those of all operands', None))
+            if got[C_] != want[C_] or got[L_] != want[L_]:
+                errs.append(('MergeAllMolecules: citations / log entries are not the union / renumbered entries of all operands', None))
     elif kind == 'mergechains':
         chains, allc = list(op[2]), bool(op[3])
         if (allc and chains) or (not allc and not chains):
             if out != 'valueerror':
-                errs.append('MergeChains: chains and all_chains both/neither given but outcome %s' % out)
+                errs.append(('MergeChains: chains and all_chains both/neither given but outcome %s' % out, None))
             return errs
-        sel = [allc or all(r[4] in chains for r in before[k][0]) for k in idxs]
+        sel = [allc or all(r[4] in chains for r in before[k][N_]) for k in idxs]
         chosen = [k for k, f in zip(idxs, sel) if f]
-        if out == 'ok' and not chosen:
-            if sys_after[s] != idxs or len(after) != len(before):
-                errs.append('MergeChains: nothing selected but the system changed')
+        if not chosen:
+            if out != 'ok' or sys_after[s] != idxs or len(after) != len(before):
+                errs.append(('MergeChains: nothing selected but the system changed (outcome %s)' % out, None))
+            return errs
+        fresh = [[], [], [], ['vermouth'], before[chosen[0]][X_], sff, []]
+        want, want_out = fold_expect(fresh, [before[k] for k in chosen])
+        if out != want_out:
+            errs.append(('MergeChains: outcome %s, expected %s' % (out, want_out), F_LOG if 'keyerror' in (out, want_out) else None))
         elif out == 'ok':
             n = len(before)
-            want, done = [], False
+            wl, done = [], False
             for k, f in zip(idxs, sel):
                 if not f:
-                    want.append(k)
+                    wl.append(k)
                 elif not done:
-                    want.append(n)
+                    wl.append(n)
                     done = True
-            if len(after) != n + 1 or sys_after[s] != want:
-                errs.append('MergeChains: molecule list %r, expected %r' % (sys_after[s], want))
+            if len(after) != n + 1 or sys_after[s] != wl:
+                errs.append(('MergeChains: molecule list %r, expected %r' % (sys_after[s], wl), None))
             else:
-                nodes, edges, inters = merged_expectation([[], [], [], [], None], [before[k] for k in chosen])
                 got = after[n]
-                if got[0] != nodes or {tuple(e) for e in got[1]} != edges or sorted(map(repr, got[2])) != inters:
-                    errs.append('MergeChains: the merged molecule is not the selected molecules in order, renumbered and shifted uniformly')
-                if set(got[3]) != {'vermouth'}.union(*[set(before[k][3]) for k in chosen]):
-                    errs.append('MergeChains: citations of the merged molecule')
-        elif out == 'valueerror' and len({before[k][4] for k in chosen}) < 2:
-            errs.append('MergeChains: ValueError although all selected nrexcl agree')
+                if got[N_] != want[N_] or got[E_] != want[E_] or not same_inters(got[I_], want[I_]):
+                    errs.append(('MergeChains: the merged molecule is not the selected molecules in order, renumbered and shifted uniformly', None))
+                if got[C_] != want[C_] or got[L_] != want[L_] or got[F_] != sff:
+                    errs.append(('MergeChains: citations / log entries / force field of the merged molecule', None))
     return errs
+
+
+def query_oracle(m, d):
+    """the read-only methods agree with the dump (and, checked by the caller, change nothing)"""
+    errs = []
+    if list(m.find_atoms(atomname='A')) != [r[0] for r in d[N_] if r[1] == 'A']:
+        errs.append('find_atoms(atomname="A") disagrees with the node table')
+    keys = [r[0] for r in d[N_]]
+    half = keys[::2]
+    got = {(min(u, v), max(u, v)) for u, v in m.edges_between(half, keys)}
+    want = {(e[0], e[1]) for e in d[E_] if e[0] in half or e[1] in half}
+    if got != want:
+        errs.append('edges_between disagrees with the bond table')
+    for t in list(m.interactions):
+        if [list(x.atoms) for x in m.get_interaction(t)] != [r[1] for r in d[I_] if r[0] == t]:
+            errs.append('get_interaction(%r) disagrees with the interaction table' % t)
+    return errs
+
+
+IN_PLACE_ATOMS_KEPT = ('prune', 'prunesel', 'rmmatch', 'addinter', 'addorrep', 'rminter', 'rmedge', 'rmedges', 'addlog')
+APPENDING = ('new', 'fromblock', 'buildblock', 'copy', 'subgraph', 'newsys', 'copysys', 'mergechains')
 
 
 def run_sequence(ops):
     """Run ops on the real code with the oracle evaluated after every op.
-    Returns (outs, dumps, errs)."""
+    Returns (outs, dumps, errs) with errs = [(message, finding id or None)]; the history ends after a clear() that left
+    dangling interactions (F-C12-4), so len(outs) can be smaller than len(ops)."""
     pool, systems, outs, dumps, errs = [], [], [], [], []
+
+    def err(step, op, msg, fid=None):
+        errs.append(('step %d %s: %s' % (step, op[0], msg), fid))
+
+    after, sys_after, ff_after = [], [], []
     for step, op in enumerate(ops):
-        before = [dump_mol(m) for m in pool]
-        sys_before = dump_systems(pool, systems)
+        # the state before this step is the state after the previous one (dumps are never mutated)
+        before, sys_before, ff_before = after, sys_after, ff_after
         out = apply(pool, op, systems)
         outs.append(out)
-        dumps.append(dump_pool(pool, systems))
         after = [dump_mol(m) for m in pool]
         sys_after = dump_systems(pool, systems)
+        ff_after = [ff_name(s.force_field) for s in systems]
+        dumps.append(enc(after) + ' ' + enc(sys_after) + ' ' + enc(ff_after))
+        kind = op[0]
+        stop = False
         for e in check_consistency(pool):
-            errs.append('step %d %s: %s' % (step, op[0], e))
+            if kind == 'clear':
+                err(step, op, e + ' (Molecule.clear() removed the atoms and kept the interactions)', F_CLEAR)
+                stop = True
+            else:
+                err(step, op, e)
         for k, (b, a) in enumerate(zip(before, after)):
-            if [r[0] for r in a[0]] != [r[0] for r in b[0]] and op[0] in ('prune', 'prunesel', 'rmmatch', 'addinter', 'addorrep', 'rminter'):
-                errs.append('step %d %s changed the atoms of molecule %d' % (step, op[0], k))
-        # frame: only the target (or the appended molecule) may change
-        if op[0] in ('new', 'fromblock', 'copy', 'subgraph', 'newsys', 'addmol', 'copysys', 'mergechains'):
+            if [r[0] for r in a[N_]] != [r[0] for r in b[N_]] and kind in IN_PLACE_ATOMS_KEPT:
+                err(step, op, 'changed the atoms of molecule %d' % k)
+        # frame: only the target (or the appended molecule) may change; add_molecule may set force fields (system_oracle)
+        if kind in APPENDING or kind == 'addmol':
             target = None
-        elif op[0] == 'mergeall':
+        elif kind == 'mergeall':
             target = sys_before[op[1]][0] if op[1] < len(sys_before) and sys_before[op[1]] else None
         else:
             target = op[1]
         if out.startswith('crash:'):
-            errs.append('step %d %s raised an undocumented %s' % (step, op[0], out[6:]))
-        for k, b in enumerate(before):
-            if k != target and after[k] != b:
-                errs.append('step %d %s on molecule %s changed molecule %d' % (step, op[0], target, k))
-        # theorem error_no_change / sstep_err: a failing operation changes nothing (add_or_replace_interaction
-        # included: it can only fail in add_interaction, before the citations are touched).  The one exception is
-        # MergeAllMolecules, which has merged the operands before the mismatching one into the first molecule.
-        if out != 'ok' and op[0] != 'mergeall' and (after[:len(before)] != before or len(after) != len(before)):
-            errs.append('step %d %s failed with %s but changed the state' % (step, op[0], out))
+            err(step, op, 'raised an undocumented %s' % out[6:])
+        if kind != 'addmol':
+            for k, b in enumerate(before):
+                if k != target and after[k] != b:
+                    err(step, op, 'on molecule %s changed molecule %d' % (target, k))
+        # theorem error_no_change / sstep_error: a failing operation changes nothing (add_or_replace_interaction
+        # included: it can only fail in add_interaction, before the citations are touched).  Exceptions: MergeAllMolecules
+        # (has merged the operands before the failing one), a molecule merged into itself (F-C12-5), a merge that fails in
+        # its log-entry loop (F-C12-6).
+        if out != 'ok' and kind != 'mergeall' and (after[:len(before)] != before or len(after) != len(before)):
+            fid = None
+            if kind == 'merge' and out == 'runtimeerror':
+                fid = F_SELF
+            elif kind == 'merge' and out == 'keyerror':
+                fid = F_LOG
+            err(step, op, 'failed with %s but changed the state' % out, fid)
         if out != 'ok' and sys_after != sys_before:
-            errs.append('step %d %s failed with %s but changed a system' % (step, op[0], out))
-        if op[0] in SYS_OPS:
+            err(step, op, 'failed with %s but changed a system' % out)
+        if kind in SYS_OPS:
             for k, (sb, sa) in enumerate(zip(sys_before, sys_after)):
-                if sb != sa and not (op[0] in ('addmol', 'mergeall', 'mergechains') and k == op[1]):
-                    errs.append('step %d %s changed system %d' % (step, op[0], k))
-            errs.extend('step %d %s: %s' % (step, op[0], e)
-                        for e in system_oracle(op, out, before, after, sys_before, sys_after))
-        elif sys_after != sys_before:
-            errs.append('step %d %s changed the systems' % (step, op[0]))
-        if op[0] == 'rmmatch':
-            b, a = (before[op[1]], after[op[1]]) if op[1] < len(before) else (None, None)
-            if b is not None:
-                chk.count('rmmatch_%s_%s' % (out, 'delete_interaction' if op[6] is not None else 'interaction'))
-                if out == 'ok' and (len(a[2]) != len(b[2]) - 1 or any(x not in b[2] for x in a[2]) or a[:2] + a[3:] != b[:2] + b[3:]):
-                    errs.append('step %d rmmatch: did not remove exactly one interaction and nothing else' % step)
+                if sb != sa and not (kind in ('addmol', 'mergeall', 'mergechains') and k == op[1]):
+                    err(step, op, 'changed system %d' % k)
+            for k, (fb, fa) in enumerate(zip(ff_before, ff_after)):
+                if fb != fa and not (kind == 'addmol' and k == op[1]):
+                    err(step, op, 'changed the force field of system %d' % k)
+            try:
+                for msg, fid in system_oracle(op, out, before, after, sys_before, sys_after, ff_before, ff_after):
+                    err(step, op, msg, fid)
+            except Exception as exc:
+                err(step, op, 'the system oracle could not be evaluated on this state: %r' % (exc,))
+        elif sys_after != sys_before or ff_after != ff_before:
+            err(step, op, 'changed the systems')
+        b = before[op[1]] if (kind not in SYS_OPS and kind not in ('new', 'fromblock', 'buildblock') and op[1] < len(before)) else None
+        a = after[op[1]] if b is not None else None
+        if b is not None and target is not None:
+            for e in query_oracle(pool[op[1]], a):
+                err(step, op, e)
+            if dump_mol(pool[op[1]]) != a:
+                err(step, op, 'a read-only method (find_atoms / edges_between / get_interaction) changed the molecule')
+        def clauses():
+            # ---- per-operation clauses --------------------------------------------------------------------------------
+            if kind == 'buildblock':
+                _, cites, nrexcl, ff, steps, ao, ro, co = op
+                want_out, table = 'ok', {}
+
+                def touch(name, vals=(None, None, None, None)):
+                    old = table.setdefault(name, [None, None, None, None])
+                    table[name] = [v if v is not None else o for v, o in zip(vals, old)]
+                for pos, st in enumerate(steps):
+                    if st[0] == 'atom':
+                        if st[1] is None:
+                            want_out = 'valueerror'
+                            break
+                        touch(st[1], st[1:5])
+                    elif st[0] == 'node':
+                        touch(st[1], st[2:6])
+                    elif st[0] == 'edge':
+                        touch(st[1]), touch(st[2])
+                    elif st[0] == 'inter' and any(x not in table for x in st[2]):
+                        want_out = 'keyerror'
+                        break
+                    elif st[0] == 'mkedges':
+                        for st2 in steps[:pos]:
+                            if st2[0] in ('inter', 'raw') and st2[1] == st[1] and st2[5] and len(st2[2]) > 1:
+                                for x in st2[2]:
+                                    touch(x)
+                if want_out == 'ok' and any(x not in table for st in steps if st[0] == 'raw' for x in st[2]):
+                    want_out = 'keyerror'                   # to_molecule meets an interaction with an unknown atom
+                chk.count('buildblock_%s' % out)
+                if out != want_out:
+                    err(step, op, 'block building: outcome %s, expected %s' % (out, want_out))
+                elif out == 'ok':
+                    got = after[-1]
+                    want_nodes = [[ao + k, v[0], d1(v[1]) + ro, d1(v[2]) + co, v[3]] for k, v in enumerate(table.values())]
+                    if got[N_] != want_nodes:
+                        err(step, op, 'block building: the atoms of the molecule are not the block\'s atoms (add_atom / add_node / implicit) '
+                                      'in order with the given attributes, residue number and charge group shifted')
+                    if got[C_] != sorted(cites) or got[X_] != nrexcl or got[F_] != ff:
+                        err(step, op, 'block building: citations / nrexcl / force field')
+            if kind == 'clear' and b is not None:
+                chk.count('clear_%s' % ('with_interactions' if b[I_] else 'without_interactions'))
+                if a[N_] or a[E_]:
+                    err(step, op, 'clear() left atoms or bonds')
+                if a[C_:] != b[C_:]:
+                    err(step, op, 'clear() changed citations / nrexcl / force field / log entries')
+            if kind in ('mkedges', 'mkedgesall') and b is not None:
+                types = [op[2]] if kind == 'mkedges' else ['bonds', 'angles', 'dihedrals', 'cmap', 'constraints']
+                pairs = {(min(u, v), max(u, v)) for t, ats, _, _, e in b[I_] if t in types and e for u, v in zip(ats[:-1], ats[1:])}
+                old = {(e[0], e[1]): e for e in b[E_]}
+                want = sorted(list(old.get(p, [p[0], p[1], None, None])) for p in set(old) | pairs)
+                chk.count('mkedges_%s' % ('new_bonds' if pairs - set(old) else 'no_new_bond'))
+                if a[E_] != want:
+                    err(step, op, 'bonds are not the old ones plus the consecutive atom pairs of the interactions with edge=True')
+                if a[N_] != b[N_] or a[I_:] != b[I_:]:
+                    err(step, op, 'changed atoms / interactions / bookkeeping')
+            if kind in ('rmedge', 'rmedges') and b is not None:
+                gone = {(min(u, v), max(u, v)) for u, v in ([op[2:4]] if kind == 'rmedge' else op[2])}
+                want = [e for e in b[E_] if (e[0], e[1]) not in gone]
+                present = any((e[0], e[1]) in gone for e in b[E_])
+                chk.count('%s_%s' % (kind, out if kind == 'rmedge' else ('some_present' if present else 'none_present')))
+                if kind == 'rmedge' and out != ('ok' if present else 'nxerror'):
+                    err(step, op, 'remove_edge outcome %s' % out)
+                if a[E_] != want or a[N_] != b[N_] or a[I_:] != b[I_:]:
+                    err(step, op, 'did not remove exactly the listed bonds and nothing else')
+            if kind in ('addedgea', 'addedges', 'addedge') and b is not None and out == 'ok':
+                ents = [list(op[2:6]) + [None, None][:6 - len(op)]] if kind != 'addedges' else op[2]
+                want = {(e[0], e[1]): list(e) for e in b[E_]}
+                for u, v, o, k in ents:
+                    key = (min(u, v), max(u, v))
+                    cur = want.get(key, [key[0], key[1], None, None])
+                    want[key] = [key[0], key[1], o if o is not None else cur[2], k if k is not None else cur[3]]
+                if a[E_] != sorted(want.values()):
+                    err(step, op, 'bonds / bond attributes are not the old ones updated by the given ones')
+                oldkeys = [r[0] for r in b[N_]]
+                newkeys = [x for u, v, _, _ in ents for x in (u, v)]
+                wantkeys = oldkeys + [x for k, x in enumerate(newkeys) if x not in oldkeys and x not in newkeys[:k]]
+                if [r[0] for r in a[N_]] != wantkeys or a[N_][:len(oldkeys)] != b[N_] or a[I_:] != b[I_:]:
+                    err(step, op, 'atoms are not the old ones plus the new end points / something else changed')
+            if kind == 'addnodesc' and b is not None:
+                rows = {r[0]: list(r) for r in b[N_]}
+                order = [r[0] for r in b[N_]]
+                for e in op[2]:
+                    vals = [x if (len(e) > 1 and x is not None) else c for x, c in zip((e[1:] if len(e) > 1 else [None] * 4), op[3])]
+                    if e[0] not in rows:
+                        rows[e[0]] = [e[0], None, None, None, None]
+                        order.append(e[0])
+                    rows[e[0]] = [e[0]] + [v if v is not None else old for v, old in zip(vals, rows[e[0]][1:])]
+                chk.count('addnodesc_%s' % ('repeated_key' if len({e[0] for e in op[2]}) < len(op[2]) else 'distinct_keys'))
+                if a[N_] != [rows[k] for k in order] or a[E_:] != b[E_:]:
+                    err(step, op, 'add_nodes_from with (key, dict) pairs / bare keys / common attributes: unexpected node table')
+            if kind == 'subgraph' and b is not None:
+                req = list(op[2])
+                keys = {r[0] for r in b[N_]}
+                chk.count('subgraph_%s_%s' % (out, 'absent_key' if any(k not in keys for k in req) else
+                                              'repeated_keys' if len(set(req)) < len(req) else 'distinct_keys'))
+                if out != ('keyerror' if any(k not in keys for k in req) else 'ok'):
+                    err(step, op, 'subgraph outcome %s' % out)
                 if out == 'ok':
-                    gone = [x for k, x in enumerate(b[2]) if b[2].count(x) != a[2].count(x) and x not in b[2][:k]]
-                    if len(gone) != 1 or gone[0][0] != op[2] or gone[0][1] != list(op[3]) or (op[4] is not None and gone[0][2] != op[4]) \
-                            or (op[5] is not None and gone[0][3] != op[5]):
-                        errs.append('step %d rmmatch: removed %r, which does not match the template' % (step, gone))
-                # the FIRST interaction of the type that matches the template goes, nothing else
-                rows = {r[0]: r for r in b[0]}
+                    s = after[-1]
+                    uniq = [k for n, k in enumerate(req) if k not in req[:n]]
+                    rows = {r[0]: r for r in b[N_]}
+                    if s[N_] != [rows[k] for k in uniq]:
+                        err(step, op, 'subgraph atoms are not the requested atoms once each in request order')
+                    if s[E_] != [e for e in b[E_] if e[0] in req and e[1] in req]:
+                        err(step, op, 'subgraph bonds (with attributes) are not the bonds between requested atoms')
+                    if s[I_] != [x for x in b[I_] if all(k in req for k in x[1])]:
+                        err(step, op, 'subgraph interactions are not those with all atoms requested')
+                    if s[C_:L_] != b[C_:L_] or s[L_]:
+                        err(step, op, 'subgraph citations / nrexcl / force field differ or log entries were carried over')
+            if kind == 'copy' and b is not None and out == 'ok' and after[-1] != b:
+                err(step, op, 'the copy differs from its source')
+            if kind == 'rmmatch' and b is not None:
+                chk.count('rmmatch_%s_%s%s' % (out, 'delete_interaction' if op[6] is not None else 'interaction',
+                                               '_pred' if (isinstance(op[5], list) or any(isinstance(x, list) for t in (op[6] or []) for x in t)) else
+                                               '_v0' if op[5] == 0 else ''))
+                rows = {r[0]: r for r in b[N_]}
 
                 def tmatch(x):
-                    if x[0] != op[2] or x[1] != list(op[3]) or (op[4] is not None and x[2] != op[4]) or (op[5] is not None and x[3] != op[5]):
+                    if x[0] != op[2] or x[1] != list(op[3]) or (op[4] is not None and x[2] != op[4]) or not pred_holds(op[5], x[3]):
                         return False
                     for atom, t in zip(x[1], op[6] or []):
                         if atom not in rows:      # dangling interaction (reported by the presence clause)
                             return False
-                        if any(val is not None and rows[atom][1 + pos] != val for pos, val in enumerate(t)):
+                        if not all(pred_holds(val, rows[atom][1 + pos]) for pos, val in enumerate(t)):
                             return False
                     return True
-                hits = [k for k, x in enumerate(b[2]) if tmatch(x)]
+                hits = [k for k, x in enumerate(b[I_]) if tmatch(x)]
+                if out == 'ok' and (len(a[I_]) != len(b[I_]) - 1 or a[:I_] + a[C_:] != b[:I_] + b[C_:]):
+                    err(step, op, 'did not remove exactly one interaction and nothing else')
                 if out == 'valueerror' and hits:
-                    errs.append('step %d rmmatch: ValueError although %r matches' % (step, b[2][hits[0]]))
-                if out == 'ok' and (not hits or a[2] != b[2][:hits[0]] + b[2][hits[0] + 1:]):
-                    errs.append('step %d rmmatch: the first matching interaction (%s) is not the one that was removed'
-                                % (step, b[2][hits[0]] if hits else None))
-        # theorem merge_outcome: a merge fails only on an nrexcl mismatch, with ValueError
-        if op[0] == 'merge' and out != 'badindex':
-            a0, b0 = before[op[1]], before[op[2]]
-            eff = b0[4] if (a0[4] is None and not a0[0]) else a0[4]
-            want = 'ok' if eff == b0[4] else 'valueerror'
-            if out != want:
-                errs.append('step %d merge: outcome %s, expected %s' % (step, out, want))
-        if op[0] == 'merge' and out == 'ok':
-            i, j = op[1], op[2]
-            a0, b0, a1 = before[i], before[j], after[i]
-            n0, nb = len(a0[0]), len(b0[0])
-            if a1[0][:n0] != a0[0]:
-                errs.append('step %d merge: existing atoms changed or dropped' % step)
-            new = a1[0][n0:]
-            if len(new) != nb:
-                errs.append('step %d merge: %d new atoms for %d merged' % (step, len(new), nb))
-            else:
-                oldkeys = [r[0] for r in a0[0]]
-                if oldkeys and new and min(r[0] for r in new) <= max(oldkeys):
-                    errs.append('step %d merge: new keys not fresh' % step)
-                if len({r[0] for r in a1[0]}) != len(a1[0]):
-                    errs.append('step %d merge: duplicate keys' % step)
-                if n0:
-                    last = max(a0[0], key=lambda r: r[0])
-                    roff = last[2] if last[2] is not None else 1
-                    coff = last[3] if last[3] is not None else 1
+                    err(step, op, 'ValueError although %r matches' % (b[I_][hits[0]],))
+                # the FIRST interaction of the type that matches the template goes, nothing else
+                if out == 'ok' and (not hits or a[I_] != b[I_][:hits[0]] + b[I_][hits[0] + 1:]):
+                    err(step, op, 'the first matching interaction (%s) is not the one that was removed' % (b[I_][hits[0]] if hits else None))
+            if kind == 'addlog' and b is not None:
+                want = {(l, e): fas for l, e, fas in b[L_]}
+                want.setdefault((op[2], op[3]), [])
+                want[(op[2], op[3])] = want[(op[2], op[3])] + [sorted([n, k] for n, k in fa) for fa in op[4]]
+                if a[L_] != sorted([l, e, fas] for (l, e), fas in want.items()) or a[:L_] != b[:L_]:
+                    err(step, op, 'log entries')
+            if kind in ('rmnode', 'rmnodes') and b is not None and out == 'ok':
+                gone = set([op[2]] if kind == 'rmnode' else op[2])
+                if a[N_] != [r for r in b[N_] if r[0] not in gone] or a[E_] != [e for e in b[E_] if e[0] not in gone and e[1] not in gone] \
+                        or a[I_] != [x for x in b[I_] if not (set(x[1]) & gone)] or a[C_:L_] != b[C_:L_]:
+                    err(step, op, 'removal did not drop exactly the atoms, their bonds and their interactions')
+                stale = [k for _, _, fas in a[L_] for fa in fas for _, k in fa if k in gone]
+                if stale:
+                    chk.count('log_entry_mentions_removed_atom')
+            # ---- merge_molecule ---------------------------------------------------------------------------------------
+            if kind == 'merge' and b is not None and op[2] < len(before) and op[1] != op[2]:
+                a0, b0 = b, before[op[2]]
+                want_out = merge_outcome_expect(a0, b0)
+                chk.count('merge_%s%s' % (out, '_ff_mismatch' if a0[F_] != b0[F_] else '_with_logs' if b0[L_] else ''))
+                if out != want_out:
+                    err(step, op, 'outcome %s, expected %s' % (out, want_out), F_LOG if 'keyerror' in (out, want_out) else None)
+                if out == 'ok':
+                    ex = merge_expect(a0, b0)
+                    n0 = len(a0[N_])
+                    if a[N_][:n0] != a0[N_]:
+                        err(step, op, 'existing atoms changed or dropped')
+                    new = a[N_][n0:]
+                    if len(new) != len(b0[N_]):
+                        err(step, op, '%d new atoms for %d merged' % (len(new), len(b0[N_])))
+                    oldkeys = [r[0] for r in a0[N_]]
+                    if oldkeys and new and min(r[0] for r in new) <= max(oldkeys):
+                        err(step, op, 'new keys not fresh')
+                    if len({r[0] for r in a[N_]}) != len(a[N_]):
+                        err(step, op, 'duplicate keys')
+                    if a[N_] != ex['nodes']:
+                        err(step, op, 'new atoms are not the newcomer\'s in order, residue number and charge group shifted uniformly')
+                    if a[E_] != ex['edges']:
+                        err(step, op, 'bonds (with attributes) are not old + renamed new')
+                    if sorted(map(repr, a[I_])) != ex['inters']:
+                        err(step, op, 'interactions are not old + renamed new')
+                    if a[C_] != ex['cites']:
+                        err(step, op, 'citations are not the union')
+                    if a[L_] != ex['logs']:
+                        err(step, op, 'log entries are not old + the newcomer\'s renumbered with the atoms + the correspondence')
+                    if a[F_] != a0[F_]:
+                        err(step, op, 'force field changed')
+                    # a log entry of the receiving molecule that mentioned a removed atom now points to a newcomer's atom
+                    keys0 = {r[0] for r in a0[N_]}
+                    if any(k not in keys0 and k in ex['corr'].values() for _, _, fas in a0[L_] for fa in fas for _, k in fa):
+                        chk.count('stale_log_entry_points_to_newcomer_atom')
+            if kind == 'merge' and b is not None and op[1] == op[2]:
+                n = len(b[N_])
+                chk.count('selfmerge_%s_%s' % (out, 'empty' if n == 0 else 'one_atom%s' % ('_with_interactions' if b[I_] else '') if n == 1 else 'two_or_more_atoms'))
+                if n == 0 or (n == 1 and not b[I_]):
+                    # these two cases work: the molecule is duplicated behind itself (no atom: only the log entries grow)
+                    want_out = merge_outcome_expect(b, b)
+                    if out != want_out:
+                        err(step, op, 'self-merge outcome %s, expected %s' % (out, want_out), F_LOG if 'keyerror' in (out, want_out) else None)
+                    if out == 'ok':
+                        ex = merge_expect(b, b)
+                        if a[N_] != ex['nodes'] or a[E_] != ex['edges'] or sorted(map(repr, a[I_])) != ex['inters'] or a[C_] != ex['cites'] \
+                                or a[L_] != ex['logs']:
+                            err(step, op, 'self-merge: the result is not the molecule followed by its shifted duplicate')
                 else:
-                    roff = coff = 0
-                for r_old, r_new in zip(b0[0], new):
-                    want = [r_old[1], (r_old[2] if r_old[2] is not None else 1) + roff, (r_old[3] if r_old[3] is not None else 1) + coff, r_old[4]]
-                    if r_new[1:] != want:
-                        errs.append('step %d merge: atom %r became %r, expected %r' % (step, r_old, r_new, want))
-                        break
-                corr = {r_old[0]: r_new[0] for r_old, r_new in zip(b0[0], new)}
-                want_e = {tuple(e) for e in a0[1]} | {(min(corr[u], corr[v]), max(corr[u], corr[v])) for u, v in b0[1] if u != v}
-                if {tuple(e) for e in a1[1]} != want_e:
-                    errs.append('step %d merge: bonds are not old + renamed new' % step)
-                want_i = sorted(a0[2] + [[t, [corr[x] for x in ats], p, v] for t, ats, p, v in b0[2]], key=lambda r: r[0])
-                if sorted(a1[2], key=lambda r: r[0]) != want_i and sorted(map(repr, a1[2])) != sorted(map(repr, want_i)):
-                    errs.append('step %d merge: interactions are not old + renamed new' % step)
+                    # the property asks for a duplicate of the molecule behind itself; what the code does instead is pinned
+                    # by the correspondence with the model (Mol.selfMerge)
+                    err(step, op, 'a molecule merged into itself: outcome %s, %d atoms afterwards instead of %d'
+                        % (out, len(a[N_]), 2 * n), F_SELF)
+                    if a[N_][:n] != b[N_] or a[E_] != b[E_] or a[I_][:0] != [] or a[C_:] != b[C_:]:
+                        err(step, op, 'self-merge changed existing atoms / bonds / bookkeeping')
+        try:
+            clauses()
+        except Exception as exc:  # an inconsistent state the clauses were not written for
+            err(step, op, 'the oracle could not be evaluated on this state: %r' % (exc,))
+        if stop:
+            break
     return outs, dumps, errs
 
 
@@ -619,21 +1209,41 @@ def load_corpus():
     return seqs
 
 
+def attribute(errs):
+    """errs = [(msg, finding id | None)] -> (messages to report, finding id).  An error without finding signature always
+    wins; errors that belong to a finding not (yet) registered in known_findings.json are counted and noted only."""
+    real = [m for m, f in errs if f is None]
+    if real:
+        return real, None
+    fids = sorted({f for _, f in errs})
+    for f in fids:
+        chk.count('finding_%s_cases' % f)
+    reg = [f for f in fids if f in KNOWN_IDS]
+    if reg:
+        return [m for m, f in errs if f == reg[0]], reg[0]
+    for f in fids:
+        note = 'cases with the signature of %s (not registered in known_findings.json) are counted, not reported' % f
+        if note not in chk.notes:
+            chk.notes.append(note)
+    return [], None
+
+
 sequences = []
 for ops in load_corpus():
     sequences.append(ops)
 rng = chk.rng('ops')
 NSEQ = 2000 if chk.thorough else 500
 for s in range(NSEQ):
-    L = rng.choice([5, 10, 20, 40]) if not chk.thorough else rng.choice([10, 40, 100, 300])
+    L = rng.choice([5, 10, 20, 40]) if not chk.thorough else rng.choice([10, 40, 100, 200])
     SYS_RATE = rng.choice([0.0, 0.1, 0.3])          # a third of the histories are system-heavy
-    ops, _, _, _ = gen_sequence(rng, L)
-    sequences.append(ops)
+    MAIN_FF = rng.choice([None, None, 'ffA'])
+    sequences.append(gen_sequence(rng, L))
 
 all_lines = []
 per_seq = []
 for ops in sequences:
     outs, dumps, errs = run_sequence(ops)
+    ops = ops[:len(outs)]
     lines = ['x' + 'reset'.encode().hex()] + [op_line(op) for op in ops]
     per_seq.append((ops, outs, dumps, errs, len(all_lines), len(lines)))
     all_lines.extend(lines)
@@ -653,10 +1263,12 @@ for si, (ops, outs, dumps, errs, start, n) in enumerate(per_seq):
     for o, out in zip(ops, outs):
         chk.count('op_' + o[0])
         chk.count('outcome_' + out)
-    nontriv = bool(kinds & {'rmnode', 'rmnodes', 'merge', 'mergeall', 'mergechains'}) and bool(kinds & {'addinter', 'addorrep', 'fromblock'})
+    nontriv = bool(kinds & {'rmnode', 'rmnodes', 'merge', 'mergeall', 'mergechains', 'clear'}) and \
+        bool(kinds & {'addinter', 'addorrep', 'fromblock', 'buildblock'})
+    msgs, fid = attribute(errs)
     chk.case('seq-%d' % si, [op_line(o) for o in ops],
              impl if impl != mo else 'agree(%d steps)' % len(ops), mo if impl != mo else 'agree(%d steps)' % len(ops),
-             errs[:3], nontriv)
+             msgs[:3], nontriv, finding=fid)
 
 # ---- edge_tuning.add_edges_at_distance: oracle only (positions are not part of the model) ----------------------
 # integer grid positions and thresholds k + 0.5, so every distance is far from the threshold and the expectation
@@ -692,11 +1304,11 @@ for ci in range(600 if chk.thorough else 80):
     after = dump_mol(m)
     chk.count('edge_dist_' + out)
     errs = ['add_edges_at_distance: ' + e for e in check_consistency([m])]
-    if after[0] != before[0]:
+    if after[N_] != before[N_]:
         errs.append('add_edges_at_distance changed or dropped atoms')
-    if after[2:] != before[2:]:
+    if after[I_:] != before[I_:]:
         errs.append('add_edges_at_distance changed interactions, citations or nrexcl')
-    old_e, new_e = {tuple(e) for e in before[1]}, {tuple(e) for e in after[1]}
+    old_e, new_e = {(e[0], e[1]) for e in before[E_]}, {(e[0], e[1]) for e in after[E_]}
     if not old_e <= new_e:
         errs.append('add_edges_at_distance dropped a bond')
     if out != 'ok' and new_e != old_e:
@@ -712,5 +1324,5 @@ for ci in range(600 if chk.thorough else 80):
                 if u != v and (d2x4 < thr2x4) != ((min(u, v), max(u, v)) in new_e) and (min(u, v), max(u, v)) not in old_e:
                     errs.append('add_edges_at_distance: pair (%r, %r) at squared distance %s/4, threshold^2 %s/4' % (u, v, d2x4, thr2x4))
     chk.case('edge-dist-%d' % ci, line('adddist', keys, [pos.get(k) for k in keys], sel_a, sel_b, thr2x4),
-             out + ' ' + enc(after[1]), None, errs[:3], bool(new_e - old_e))
+             out + ' ' + enc([[e[0], e[1]] for e in after[E_]]), None, errs[:3], bool(new_e - old_e))
 chk.finish()
